@@ -315,6 +315,14 @@ func (w *WAL) mutateStateLocked(tx stateTxn) error {
 
 	// Commit updates to meta
 	if err := w.metaDB.CommitState(newS.Persistent()); err != nil {
+		// A failed commit is not necessarily a commit that didn't happen: the
+		// metaDB may have written the new state and then failed to confirm it
+		// (e.g. the final fsync of its file returned an error), in which case a
+		// restart recovers the new state while we would carry on with the old
+		// one. Acknowledging appends to a tail that the persisted state no longer
+		// lists would lose them. We can't tell which state is on disk, so refuse
+		// further writes; Open recovers correctly from either.
+		w.failed = err
 		return err
 	}
 
